@@ -20,7 +20,7 @@ func VerifC04(args []string) {
 	w.opsFail = true
 	cfgs := vfConfigs(args, 2)
 	for _, opts := range cfgs {
-		conf := w.config("keys", opts)
+		conf := w.config(vfRegOf(args), opts)
 		e, err := Compile(conf, src)
 		vfAssert(err == nil && e != nil, "well-formed expression compiles under "+opts)
 		if variant == "all" {
@@ -81,7 +81,7 @@ func VerifC05(args []string) {
 	w.useAvail = true
 	want, definite := w.refKleene(tree)
 	for _, opts := range cfgs {
-		conf := w.config("keys", opts)
+		conf := w.config(vfRegOf(args), opts)
 		e, err := Compile(conf, src)
 		vfAssert(err == nil && e != nil, "well-formed expression compiles under "+opts)
 		t, terr := e.TryEval(&Ctx{VariableFetcher: &vfFetcher{w: w}})
@@ -106,6 +106,15 @@ func VerifC05(args []string) {
 
 // vfConfigs reads the configuration list argument: "all" = the 16 subsets,
 // otherwise a comma-separated list of 4-bit strings.
+// vfRegOf: how the variables are made known to the compiler: registered with keys (default),
+// or not at all with AllowUndefinedVariable when the unit's last argument is "undef".
+func vfRegOf(args []string) string {
+	if len(args) > 0 && args[len(args)-1] == "undef" {
+		return "undef"
+	}
+	return "keys"
+}
+
 func vfConfigs(args []string, i int) []string {
 	if len(args) <= i || args[i] == "all" {
 		return vfAllOpts
